@@ -28,7 +28,11 @@ NTYPES = 6
 TYPES = [type(f"T{i}", (), {"__init__": lambda self, v=None: setattr(self, "v", v),
                             "__bool__": lambda self: (self.v or 0) % 3 != 0}) for i in range(NTYPES)]
 TYPE_ID = {t: i for i, t in enumerate(TYPES)}
-EXN = [type(f"Exn{i}", (Exception,), {}) for i in range(4)]
+# exception classes user code raises: a plain one, subclasses of two builtins the library itself
+# raises and handles (LookupError: ResourceNotFound; RuntimeError), and the builtin TimeoutError (which
+# the library also raises itself for a start-up time-out)
+EXN = [type("Exn0", (Exception,), {}), type("Exn1", (LookupError,), {}), type("Exn2", (RuntimeError,), {}),
+       TimeoutError]
 BASE = [type(f"Base{i}", (BaseException,), {}) for i in range(3)]
 ACTIVE_CTX: contextvars.ContextVar[int | None] = contextvars.ContextVar("verif_active_ctx", default=None)
 ACTIVE_TASK: contextvars.ContextVar[int | None] = contextvars.ContextVar("verif_active_task", default=None)
@@ -308,7 +312,7 @@ class Kernel:
         "str604b": "'None | T{ty}'",
     }
 
-    def build_function(self, params: list[dict[str, Any]], is_async: bool) -> Any:
+    def build_function(self, params: list[dict[str, Any]], is_async: bool, future: bool = True) -> Any:
         """params: name, kind (posonly|normal|kwonly), dflt (none|value|marker|uncalled), mname,
         annot (form or None), ty."""
         import asphalt.core as ac
@@ -333,7 +337,11 @@ class Kernel:
         src = f"{'async ' if is_async else ''}def fn({sig}):\n    return dict(locals())\n"
         ns: dict[str, Any] = {f"T{i}": t for i, t in enumerate(TYPES)}
         ns.update({"resource": ac.resource, "Optional": typing.Optional, "Union": typing.Union})
-        exec(src, ns)  # noqa: S102 - generated signature
+        # with / without `from __future__ import annotations` in the defining module: annotations are
+        # all strings, or real objects that may still contain quoted forward references
+        code = compile(("from __future__ import annotations\n" if future else "") + src, "<generated>", "exec",
+                       dont_inherit=True)
+        exec(code, ns)  # noqa: S102 - generated signature
         return ns["fn"]
 
     def do_decorate(self, cmd: dict[str, Any]) -> list[str]:
@@ -342,7 +350,7 @@ class Kernel:
         import asphalt.core as ac
 
         try:
-            fn = self.build_function(cmd["params"], cmd.get("async", False))
+            fn = self.build_function(cmd["params"], cmd.get("async", False), cmd.get("future", True))
         except SyntaxError as e:
             return ["HARNESS-SYNTAX " + str(e)]
         with warnings.catch_warnings(record=True) as wlist:
@@ -366,7 +374,7 @@ class Kernel:
                            "annot": d.get("form", "plain"), "ty": d["ty"]})
         # parameters without defaults must precede those with defaults among positional ones
         params.sort(key=lambda p: (p["kind"] != "normal", p["kind"] == "normal" and p["dflt"] != "none"))
-        fn = ac.inject(self.build_function(params, cmd["async"]))
+        fn = ac.inject(self.build_function(params, cmd["async"], cmd.get("future", True)))
         sentinels = {o["name"]: object() for o in cmd["others"] if not o["has_default"] or o.get("pass")}
         args = [sentinels[p["name"]] for p in params if p["kind"] == "normal" and p["name"] in sentinels
                 and p["dflt"] == "none"]
